@@ -187,13 +187,22 @@ func c19Scenario(name string, depth int, howAxis bool) *explore.Scenario {
 				if howAxis && k == depth-1 {
 					// how the caller reaches the handshake of the last connection: the documented
 					// inspect / edit / connect orders must offer the cached session in a valid form too
-					how := x.Choose("how", 4)
+					how := x.Choose("how", 6)
 					if how != 0 {
 						inner := prep
 						prep = func(u *tls.UConn) error {
 							if inner != nil {
 								if err := inner(u); err != nil {
 									return err
+								}
+							}
+							if how >= 4 {
+								// the hello was first built for inspection without a session
+								if err := u.BuildHandshakeStateWithoutSession(); err != nil {
+									return err
+								}
+								if how == 4 {
+									return nil // Handshake builds again, this time loading the session
 								}
 							}
 							if err := u.BuildHandshakeState(); err != nil {
@@ -207,7 +216,7 @@ func c19Scenario(name string, depth int, howAxis bool) *explore.Scenario {
 							}
 							return nil
 						}
-						hist[len(hist)-1] += []string{"", "[prebuilt]", "[prebuilt+SetClientRandom]", "[built twice]"}[how]
+						hist[len(hist)-1] += []string{"", "[prebuilt]", "[prebuilt+SetClientRandom]", "[built twice]", "[built without session, then Handshake]", "[built without session, then BuildHandshakeState]"}[how]
 					}
 				}
 				hs := peer.Run(ccfg, p.client.ID, scfg, peer.Opts{Prepare: prep, Echo: true})
@@ -342,7 +351,7 @@ func c19Scenarios(thorough bool) []*explore.Scenario {
 func init() {
 	register(&Prop{ID: "C19", Level: "model_checking", Variant: "A", Scenarios: c19Scenarios,
 		Run: func(c *explore.Check, thorough bool) {
-			c.Rule = "histories of 3 (4) connections sharing one ClientSessionCache and one server ticket key: the first two steps range over the full product of 7 clients (Chrome_100, Chrome_100_PSK, Chrome_112_PSK_Shuf, Firefox_120, Golang, custom TLS 1.2 with and without extended_master_secret) x server {TLS 1.2, TLS 1.3, TLS 1.3 answering with an HRR} x server name {a, b} x clock {+1 min, +8 days}; later steps repeat the previous step with <=2 deviations; every step handshakes, echoes (absorbing NewSessionTicket) and closes; plus all 2-connection histories with the second connection reached by {Handshake, BuildHandshakeState+Handshake, BuildHandshakeState+SetClientRandom+Handshake, BuildHandshakeState twice+Handshake}. Oracle per step against a reference cache: must resume iff an unexpired session of the same parrot/name/version exists and the spec carries the needed extension (also through an HRR); DidResume agrees on both ends; pre_shared_key last and well-formed; no handshake failure at all; no ticket issued for one name offered to another. distinct = history"
+			c.Rule = "histories of 3 (4) connections sharing one ClientSessionCache and one server ticket key: the first two steps range over the full product of 7 clients (Chrome_100, Chrome_100_PSK, Chrome_112_PSK_Shuf, Firefox_120, Golang, custom TLS 1.2 with and without extended_master_secret) x server {TLS 1.2, TLS 1.3, TLS 1.3 answering with an HRR} x server name {a, b} x clock {+1 min, +8 days}; later steps repeat the previous step with <=2 deviations; every step handshakes, echoes (absorbing NewSessionTicket) and closes; plus all 2-connection histories with the second connection reached by {Handshake, BuildHandshakeState+Handshake, BuildHandshakeState+SetClientRandom+Handshake, BuildHandshakeState twice+Handshake, BuildHandshakeStateWithoutSession+Handshake, BuildHandshakeStateWithoutSession+BuildHandshakeState+Handshake}. Oracle per step against a reference cache: must resume iff an unexpired session of the same parrot/name/version exists and the spec carries the needed extension (also through an HRR); DidResume agrees on both ends; pre_shared_key last and well-formed; no handshake failure at all; no ticket issued for one name offered to another. distinct = history"
 			c.Assumptions = []string{"reference resumption table (mc/props/c19.go) written from the property statement; ticket lifetime 7 days", "OmitEmptyPsk is on for every client"}
 			runAll(c, c19Scenarios(thorough), 0)
 			c.Gate(c.Total.Counters["resumed"] > 500, "non-vacuity: %d resumed connections", c.Total.Counters["resumed"])
